@@ -94,9 +94,9 @@ def run_one(text, repo=REPO, timeout=60):
     raise Undecided('witness driver failed unexpectedly rc=%s: %s' % (rc, (err or '')[-300:]))
 
 
-def enumerate_inputs(k, budget_s, seed=0, repo=REPO):
+def enumerate_inputs(k, budget_s, seed=0, repo=REPO, kinds=None):
     drv = build_driver(repo)
-    rc, out, err, wall = run([drv, 'enumerate', str(k), str(budget_s), str(seed)], timeout=budget_s + 120)
+    rc, out, err, wall = run([drv, 'enumerate', str(k), str(budget_s), str(seed)] + ([','.join(kinds)] if kinds else []), timeout=budget_s + 120)
     r = parse_result(rc, out)
     if rc == 0:
         return None, (r or {}).get('inputs', 0)
@@ -107,16 +107,18 @@ def enumerate_inputs(k, budget_s, seed=0, repo=REPO):
     return None, 0
 
 
-def search(k, budget_s, deep_ns=(150, 400, 3000, 120000), seed=0, repo=REPO):
+def search(k, budget_s, deep_ns=(150, 400, 3000, 120000), seed=0, repo=REPO, kinds=None):
     """Witness search: deep-nesting inputs first, then token-class enumeration.
     -> witness dict or None"""
     for n in deep_ns:
         for nm, _, _, _ in DEEP:
             w = run_one(deep_input(nm, n), repo)
+            if w and kinds and w['kind'] not in kinds:
+                w = None
             if w:
                 w['input_recipe'] = '%s x %d' % (nm, n)
                 if len(w['input']) > 400:
                     w['input'] = w['input'][:200] + ' ...(%d chars; regenerate from input_recipe)' % len(w['input'])
                 return w
-    w, n = enumerate_inputs(k, budget_s, seed, repo)
+    w, n = enumerate_inputs(k, budget_s, seed, repo, kinds)
     return w
